@@ -13,10 +13,14 @@ DP(t) == INSTANCE DispProps WITH D <- Traces[t].cfg
 ToSet(s) == {s[k] : k \in DOMAIN s}
 HistoryOf(tr) == [log |-> tr.log, events |-> ToSet(tr.events), sched |-> ToSet(tr.sched), orders |-> tr.orders,
                   clean |-> tr.clean]
+\* whatever handlers and jobs raise is contained: run() itself returns (on exhaustion or after a stop), it never raises
+\* and never hangs -- "a failing job does not prevent other jobs or events from running"
+Contained(tr) == IF tr.returned THEN {} ELSE {"C13_FaultContained"}
 Init == tid = 1
 Next == /\ tid <= Len(Traces)
         /\ PrintT("@@" \o ToJson([id |-> Traces[tid].id, n |-> Len(Traces[tid].log),
-                                  failing |-> DP(tid)!Failing(HistoryOf(Traces[tid]))]))
+                                  failing |-> DP(tid)!Failing(HistoryOf(Traces[tid]))
+                                              \cup Contained(Traces[tid])]))
         /\ TLCSet(1, tid)
         /\ tid' = tid + 1
 Spec == Init /\ [][Next]_tid
